@@ -12,6 +12,7 @@
     mirror itself is compared with TLC's verdicts on every emitted case).
 """
 import json
+import math
 
 import vcommon as vc
 import vgen
@@ -239,7 +240,7 @@ def canon_equal(got, want, shape):
     if want == "@dt":
         return isinstance(got, str) and "2017-01-02T03:04:05" in got
     if isinstance(want, float) and isinstance(got, (int, float)) and not isinstance(got, bool):
-        return float(got) == want
+        return float(got) == want and math.copysign(1.0, float(got)) == math.copysign(1.0, want)      # the sign of zero is data
     if isinstance(want, list) and isinstance(got, list):
         return len(want) == len(got) and all(canon_equal(g, w, None) for g, w in zip(got, want))
     if isinstance(want, dict) and isinstance(got, dict):
@@ -250,7 +251,7 @@ def canon_equal(got, want, shape):
 
 def same_double_text(a, b):
     try:
-        return float(a) == float(b)
+        return float(a) == float(b) and math.copysign(1.0, float(a)) == math.copysign(1.0, float(b))
     except ValueError:
         return a == b
 
